@@ -29,7 +29,7 @@ for p in props:
             "evidence_file": f"/verif/evidence/{pid}.json",
             "replay_cmd_template": "cat {path}",
             "engine": "govc",
-            "level_claimed": {"category": "proof", "text": text, "design_ref": "DESIGN.md section 8 and 12"},
+            "level_claimed": {"category": "proof", "text": text, "design_ref": "DESIGN.md section 0 (as built) and section 8 (plan)"},
             "level_note": note,
             "technique": TECH,
         })
